@@ -65,6 +65,20 @@ def env():
                 s.mark('request_stop', getattr(self, '_verif_name', '?'))
             return o_rs(self)
         ScriptJob.request_stop = request_stop
+        o_ex = ScriptJob.execute
+
+        def execute(self):
+            # annotations only (marks are not yield points): when a job's script starts and ends on its thread
+            s = sc.active()
+            if s is not None:
+                s.mark('job_begin', getattr(self, '_verif_name', '?'))
+            try:
+                return o_ex(self)
+            finally:
+                s = sc.active()
+                if s is not None:
+                    s.mark('job_end', getattr(self, '_verif_name', '?'))
+        ScriptJob.execute = execute
 
 
 # ---------------------------------------------------------------------------
@@ -159,6 +173,12 @@ def make_run(run, schedule, policy, max_steps):
                 s.mark('stop-raised', run.result['stop_raised'])
             run.phase = 'stopped'
             s.mark('stopped')
+            if run.scenario == 'control' and run.stop_kind in ('stop_current', 'stop_job'):
+                # a further job queued while the stopped one may still be winding down: it waits its turn
+                job3 = ScriptJob.from_string(SECOND)
+                job3._verif_name = 'third'
+                jc.add_job(job3, 'third')
+                s.mark('third-queued')
             run.phase = 'end'
     s.spawn(requester, 'R')
     return s
@@ -374,6 +394,19 @@ def judge(run, s, outcome):
                             % (run.stop_kind, run.result.get('stop_returned'))))
         if 'J2' in threads and not alive.get('J2') and 'second' not in targets and got2 != SECOND_COMPLETE:
             out.append(('C09/stop-affects-other-job', 'the foreground job issued %d of its %d device commands after the background job was stopped' % (got2, SECOND_COMPLETE)))
+    if run.scenario in ('control', 'background'):
+        # queued jobs run one at a time, also around a stop: no job's script starts while another queued job's script is running
+        running = {}
+        for i, (step, lab, kind, name, value) in enumerate(log):
+            if kind == 'mark' and name in ('job_begin', 'job_end') and not (run.scenario == 'background' and value[1] == 'first'):
+                if name == 'job_begin':
+                    if running:
+                        out.append(('C09/stopped-job-overlaps-next', 'the script of job %r starts on thread %s while the script of job %r is still running (stop kind %s)'
+                                    % (value[1], lab, sorted(running)[0], run.stop_kind)))
+                        break
+                    running[value[1]] = lab
+                else:
+                    running.pop(value[1], None)
     if run.scenario == 'control':
         got1, got2 = ndev.get('J1', 0), ndev.get('J2', 0)
         q_len = len(list(run.jc.get_queued()))
